@@ -278,7 +278,11 @@ impl Cursor<'_> {
     }
 
     fn ident(&mut self) -> Result<TokenKind> {
-        let ident_start = self.abs_pos() - 1;
+        let mut ident_start = self.abs_pos() - 1;
+        // Previous character may be multi-byte (when falling back from a malformed hex literal)
+        while !self.src().is_char_boundary(ident_start) {
+            ident_start -= 1;
+        }
         self.take_while(is_id);
         let ident = self
             .get_range(ident_start..self.abs_pos())
